@@ -33,7 +33,7 @@ REQUIRED_COUNTERS = {"quick": {"judged:conditional": 10000, "judged:marginal": 3
                      "thorough": {"judged:conditional": 100000, "judged:marginal": 30000, "error:overlap": 3000, "error:size-mismatch": 3000,
                                   "error:ctor-mismatch": 1000, "meta:cond-on-nothing": 3000, "meta:marginal-compose": 3000, "meta:two-step": 3000,
                                   "form:scalar-int": 3000, "form:ndarray": 3000, "order:Y-not-increasing": 10000, "order:X-not-increasing": 10000}}
-N = {"quick": 4000, "thorough": 60000}
+N = {"quick": 4000, "thorough": 500000}
 EPS = 2.0 ** -52
 
 
